@@ -250,7 +250,7 @@ def run(ctx: Any, prog: Program) -> None:
             ri = Extractor(bsp, fold, Config(dict(vals), layout), 'BSP', inline).extract(rd)
             wi = Extractor(bsp, fold, Config(dict(vals), layout), 'BSP', inline).extract(wr)
             rtags, wtags = tags(ri), tags(wi)
-            for t in sorted(rtags | wtags):
+            for t in sorted(rtags | wtags, key=lambda t_: (not (t_ == '?' or t_.startswith('var:')), t_)):      # undetermined destinations first: no partial verdict
                 if t == '?' or t.startswith('var:'):
                     raise AnalysisError(f'{v} [{cname}]: cannot determine which lump a format belongs to (tag {t}); reader tags {sorted(rtags)}, writer tags {sorted(wtags)}')
                 rs = simplify(flatten(by_tag(ri, t)))
